@@ -282,6 +282,7 @@ pub const STRETCH_SERDE: &[Tmpl] = &[
     Tmpl { name: "blank text around items", segs: &[L(b"<r>"), S(0, b" \n"), L(b"<a>x</a>"), S(1, b"\t"), L(b"<a>y</a></r>")] },
     Tmpl { name: "text-only unknown elements, blanks, then text", segs: &[L(b"<r>"), S(0, b"<zz>q</zz>"), S(1, b" "), L(b"t<a>x</a></r>")] },
     Tmpl { name: "text-only unknown element, blanks around a comment", segs: &[L(b"<r><zz><![CDATA[q]]></zz>"), S(0, b" "), L(b"<!--c-->"), S(1, b" "), L(b"<a>x</a></r>")] },
+    Tmpl { name: "list items inside repeated elements", segs: &[L(b"<r>"), S(0, b"<a>one two  three four</a>"), L(b"<b>"), S(1, b"x "), L(b"y z</b></r>")] },
     Tmpl { name: "prolog x trailing comments", segs: &[L(b"<?xml version=\"1.0\"?>"), S(0, b"<!--p-->"), L(b"<r><a>t</a></r>"), S(1, b"<!--e-->")] },
 ];
 
